@@ -164,7 +164,11 @@ func rulesC11(c *Ctx) {
 
 	// --- pipeline -------------------------------------------------------------------------------
 	if len(decoder.Blocks) != 1 {
-		c.Undecided("C11.UNESCAPE", name, p.Pos(decoder.Pos()), "the decoder is not a straight-line pipeline of string transformers (loops/branches are not modelled)")
+		// a hand-written scan loop over the literal body: decided iteration-wise
+		if scannerDecoder(c, name, decoder, want) {
+			return
+		}
+		c.Undecided("C11.UNESCAPE", name, p.Pos(decoder.Pos()), "the decoder is neither a straight-line pipeline of string transformers nor a single scan loop over the literal body")
 		return
 	}
 	rets := returnsOf(decoder)
@@ -627,4 +631,378 @@ func ruleC11Fold(c *Ctx) {
 		c.Check(raw, "C11.FOLD", FnName(st.Parent())+": folds a constant through String()", p.Pos(st.Pos()), "StringConstNode.String() returns the value unchanged, so the folded constant denotes the same string", "a constant is folded from the operand's String(), but StringConstNode.String() does not return the value unchanged (a display form): the folded pattern denotes a different string than the literal the user wrote")
 	}
 	c.CallSites(len(folds))
+}
+
+// scannerDecoder: the decoder is a hand-written single pass over the literal body —
+//
+//	body := TrimSuffix(TrimPrefix(text, `"`), `"`)            (quote stripping, as in the pipeline form)
+//	[if the body has no backslash: return body]
+//	for i := 0; i < len(body); i++ { ... append / WriteByte ... }
+//	return string(buf) / builder.String()
+//
+// It is decided by evaluating ONE iteration of the loop for every combination of (current byte is a
+// backslash or not, another byte follows or not, which byte follows): the iteration must emit exactly the
+// escape's meaning and step over two bytes when a grammar escape starts here, and emit the current byte and
+// step over one otherwise.  That is the single left-to-right pass of the reference reading; nothing is
+// re-read, so an escaped backslash cannot start another escape.
+func scannerDecoder(c *Ctx, name string, decoder *ssa.Function, want map[string]string) bool {
+	p := c.P
+	loops := loopsOf(decoder)
+	if len(loops) != 1 {
+		return false
+	}
+	l := loops[0]
+	// the index: a header phi starting at 0
+	var idx *ssa.Phi
+	var startAt *ssa.Call // strings.IndexByte(body, '\\') when the scan starts at the first backslash
+	var otherPhis []*ssa.Phi
+	for _, in := range l.Header.Instrs {
+		phi, ok := in.(*ssa.Phi)
+		if !ok {
+			break
+		}
+		isIdx := false
+		if bt, isB := phi.Type().Underlying().(*types.Basic); isB && bt.Info()&types.IsInteger != 0 {
+			for i, e := range phi.Edges {
+				if l.Blocks[phi.Block().Preds[i]] {
+					continue
+				}
+				if k, isK := e.(*ssa.Const); isK && k.Value != nil && constant.Sign(k.Value) == 0 {
+					isIdx = true
+				}
+				// ... or at the first backslash, the part before it having been copied as it is
+				if call, isCall := e.(*ssa.Call); isCall {
+					if cal, _ := calleeOf(call.Common()); cal != nil && cal.Pkg() != nil && cal.Pkg().Path() == "strings" && cal.Name() == "IndexByte" && len(call.Call.Args) == 2 {
+						if k, isK := call.Call.Args[1].(*ssa.Const); isK && k.Value != nil {
+							if n, _ := constant.Int64Val(k.Value); n == '\\' {
+								startAt = call
+								isIdx = true
+							}
+						}
+					}
+				}
+			}
+		}
+		if isIdx && idx == nil {
+			idx = phi
+		} else {
+			otherPhis = append(otherPhis, phi)
+		}
+	}
+	if idx == nil {
+		return false
+	}
+	// the scanned string: what the loop bound takes the length of
+	var body ssa.Value
+	for b := range l.Blocks {
+		for _, in := range b.Instrs {
+			if call, ok := in.(*ssa.Call); ok {
+				if bi, isB := call.Call.Value.(*ssa.Builtin); isB && bi.Name() == "len" && len(call.Call.Args) == 1 {
+					if bt, isS := call.Call.Args[0].Type().Underlying().(*types.Basic); isS && bt.Info()&types.IsString != 0 {
+						if body == nil {
+							body = call.Call.Args[0]
+						} else if body != call.Call.Args[0] {
+							return false
+						}
+					}
+				}
+			}
+		}
+	}
+	if body == nil {
+		return false
+	}
+	if startAt != nil {
+		// the skipped prefix (which holds no backslash) must have been copied to the output unchanged
+		if startAt.Call.Args[0] != body {
+			return false
+		}
+		copied := false
+		for _, b := range decoder.Blocks {
+			if l.Blocks[b] {
+				continue
+			}
+			for _, in := range b.Instrs {
+				call, ok := in.(*ssa.Call)
+				if !ok {
+					continue
+				}
+				for _, a := range call.Call.Args {
+					if sl, isSl := a.(*ssa.Slice); isSl && sl.X == body && sl.Low == nil && sl.High == ssa.Value(startAt) {
+						copied = true
+					}
+					if cv, isCv := a.(*ssa.Convert); isCv {
+						if sl, isSl := cv.X.(*ssa.Slice); isSl && sl.X == body && sl.Low == nil && sl.High == ssa.Value(startAt) {
+							copied = true
+						}
+					}
+				}
+			}
+		}
+		if !copied {
+			c.Bad("C11.UNESCAPE", name+": prefix", p.Pos(decoder.Pos()), "the scan starts at the first backslash but the part of the literal before it is not copied to the result")
+		}
+	}
+	// quote stripping ahead of the loop: body = TrimSuffix(TrimPrefix(param, `"`), `"`) in either order
+	var stages []strStage
+	v := body
+	for steps := 0; v != ssa.Value(decoder.Params[0]) && steps < 4; steps++ {
+		call, ok := v.(*ssa.Call)
+		if !ok {
+			return false
+		}
+		cal, _ := calleeOf(call.Common())
+		if cal == nil || cal.Pkg() == nil || cal.Pkg().Path() != "strings" || (cal.Name() != "TrimPrefix" && cal.Name() != "TrimSuffix") {
+			return false
+		}
+		sv, okS := constString(call.Call.Args[1])
+		if !okS {
+			return false
+		}
+		stages = append(stages, strStage{kind: strings.ToLower(cal.Name()), a: sv, pos: call.Pos()})
+		v = call.Call.Args[0]
+	}
+	if v != ssa.Value(decoder.Params[0]) {
+		return false
+	}
+	nPre, nSuf, okQ := 0, 0, true
+	for _, s := range stages {
+		if s.a != `"` {
+			okQ = false
+		}
+		if s.kind == "trimprefix" {
+			nPre++
+		} else {
+			nSuf++
+		}
+	}
+	c.Check(okQ && nPre == 1 && nSuf == 1, "C11.UNESCAPE", name+": quotes", p.Pos(decoder.Pos()), "exactly one leading and one trailing double quote are stripped, before unescaping", "quote stripping is not exactly one TrimPrefix and one TrimSuffix of `\"` ahead of the unescape step")
+	// returns: the body itself where it has no backslash, or what the loop produced
+	fi := factsOf(decoder)
+	okRet, whyRet := true, ""
+	for _, r := range returnsOf(decoder) {
+		if l.Blocks[r.Block()] {
+			okRet, whyRet = false, "the loop returns from inside an iteration"
+			continue
+		}
+		if r.Results[0] == body {
+			noEsc := fi.HoldsWhere(r.Block(), func(f Fact) bool {
+				call, isCall := f.V.(*ssa.Call)
+				if isCall && f.Kind == "true" && !f.Pol {
+					if cal, _ := calleeOf(call.Common()); cal != nil && cal.Pkg() != nil && cal.Pkg().Path() == "strings" && (cal.Name() == "Contains" || cal.Name() == "ContainsRune" || cal.Name() == "ContainsAny") && call.Call.Args[0] == body {
+						if s, okS := constString(call.Call.Args[1]); okS && s == `\` {
+							return true
+						}
+						if k, isK := call.Call.Args[1].(*ssa.Const); isK && k.Value != nil && k.Value.Kind() == constant.Int {
+							if n, _ := constant.Int64Val(k.Value); n == '\\' {
+								return true
+							}
+						}
+					}
+				}
+				if bo, isB := f.V.(*ssa.BinOp); isB && f.Kind == "true" && f.Pol && bo.Op == token.LSS {
+					if call, isCall := bo.X.(*ssa.Call); isCall {
+						if cal, _ := calleeOf(call.Common()); cal != nil && (cal.Name() == "IndexByte" || cal.Name() == "Index") && call.Call.Args[0] == body {
+							if k, isK := bo.Y.(*ssa.Const); isK && k.Value != nil && constant.Sign(k.Value) == 0 {
+								return true
+							}
+						}
+					}
+				}
+				return false
+			})
+			if !noEsc {
+				okRet, whyRet = false, "the body is returned as is on a path where it may contain a backslash"
+			}
+			continue
+		}
+		// otherwise the result must be produced after the loop ran to its end: the return is not reachable
+		// from the entry without passing the loop header
+		ri := reachWithout(decoder, func(in ssa.Instruction) bool { return in.Block() == l.Header })
+		if ri.Reaches(r) {
+			okRet, whyRet = false, "a result other than the untouched body is returned without running the scan"
+		}
+	}
+	c.Check(okRet, "C11.UNESCAPE", name+": results", p.Pos(decoder.Pos()), "the function returns the body itself only where it has no backslash, otherwise what the scan produced", whyRet)
+
+	// ---- one iteration, every case ----
+	isOut := func(ci ssa.CallInstruction) bool {
+		cc := ci.Common()
+		if bi, isB := cc.Value.(*ssa.Builtin); isB && bi.Name() == "append" {
+			return true
+		}
+		if cal, _ := calleeOf(cc); cal != nil && cal.Pkg() != nil && cal.Pkg().Path() == "strings" {
+			switch cal.Name() {
+			case "WriteByte", "WriteRune", "WriteString":
+				return true
+			}
+		}
+		return false
+	}
+	indexRole := func(v ssa.Value) int { // 0: body[i], 1: body[i+1], -1: something else
+		if v == ssa.Value(idx) {
+			return 0
+		}
+		if bo, ok := v.(*ssa.BinOp); ok && bo.Op == token.ADD {
+			if k, isK := bo.Y.(*ssa.Const); isK && bo.X == ssa.Value(idx) && k.Value != nil {
+				if n, _ := constant.Int64Val(k.Value); n == 1 {
+					return 1
+				}
+			}
+		}
+		return -1
+	}
+	var escChars []byte
+	for k := range want {
+		escChars = append(escChars, k[1])
+	}
+	sort.Slice(escChars, func(i, j int) bool { return escChars[i] < escChars[j] })
+	followers := append(append([]byte{}, escChars...), 'x')
+	okIter, whyIter, undecided := true, "", ""
+	rows := 0
+	for _, b0 := range []byte{'\\', 'a'} {
+		for _, hasNext := range []bool{true, false} {
+			fs := followers
+			if !hasNext || b0 != '\\' {
+				fs = []byte{'x'}
+			}
+			for _, b1 := range fs {
+				rows++
+				decideSymCompare = func(a, b AV, tok token.Token) (bool, bool) {
+					// i+k against n = len(body): this iteration exists (i < n); i+1 < n iff another byte follows
+					pos := func(x AV) (int64, bool) { return x.Off, x.Sym == "i" }
+					cmp := func(k int64) int { // sign of (i+k) - n
+						switch {
+						case k <= 0:
+							return -1
+						case k == 1:
+							if hasNext {
+								return -1
+							}
+							return 0
+						default:
+							return 1 // beyond what this iteration may look at
+						}
+					}
+					var d int
+					switch {
+					case a.Sym == "i" && b.Sym == "n" && b.Off == 0:
+						k, _ := pos(a)
+						d = cmp(k)
+					case a.Sym == "n" && a.Off == 0 && b.Sym == "i":
+						k, _ := pos(b)
+						d = -cmp(k)
+					default:
+						return false, false
+					}
+					switch tok {
+					case token.LSS:
+						return d < 0, true
+					case token.LEQ:
+						return d <= 0, true
+					case token.GTR:
+						return d > 0, true
+					case token.GEQ:
+						return d >= 0, true
+					case token.EQL:
+						return d == 0, true
+					case token.NEQ:
+						return d != 0, true
+					}
+					return false, false
+				}
+				oracle := func(v ssa.Value) (AV, bool) {
+					switch x := v.(type) {
+					case *ssa.Phi:
+						if x == idx {
+							return AV{Kind: "sym", Sym: "i"}, true
+						}
+						for _, o := range otherPhis {
+							if x == o {
+								return AV{Kind: "sym", Sym: "acc:" + x.Name()}, true
+							}
+						}
+					case *ssa.Call:
+						if bi, isB := x.Call.Value.(*ssa.Builtin); isB && bi.Name() == "len" && len(x.Call.Args) == 1 && x.Call.Args[0] == body {
+							return AV{Kind: "sym", Sym: "n"}, true
+						}
+						if bi, isB := x.Call.Value.(*ssa.Builtin); isB && bi.Name() == "append" {
+							return AV{Kind: "sym", Sym: "acc:append"}, true
+						}
+					case *ssa.Lookup:
+						if x.X == body {
+							switch indexRole(x.Index) {
+							case 0:
+								return avInt(int64(b0)), true
+							case 1:
+								return avInt(int64(b1)), true
+							}
+						}
+					case *ssa.Index:
+						if x.X == body {
+							switch indexRole(x.Index) {
+							case 0:
+								return avInt(int64(b0)), true
+							case 1:
+								return avInt(int64(b1)), true
+							}
+						}
+					}
+					return AV{}, false
+				}
+				evs, next, exited, err := DecideIteration(decoder, l, oracle, isOut)
+				decideSymCompare = nil
+				if err != "" {
+					undecided = err
+					continue
+				}
+				if exited {
+					okIter, whyIter = false, fmt.Sprintf("the scan is left in the middle of the body (current byte %q, following byte %q)", b0, b1)
+					continue
+				}
+				// what was emitted
+				var out []int64
+				okOut := true
+				for _, ev := range evs {
+					a := ev.Args[len(ev.Args)-1]
+					if a.Kind != "const" {
+						okOut = false
+						continue
+					}
+					n, _ := constant.Int64Val(a.C)
+					out = append(out, n)
+				}
+				step := int64(-1)
+				if nv, has := next[idx]; has && nv.Kind == "sym" && nv.Sym == "i" {
+					step = nv.Off
+				}
+				wantOut, wantStep := []int64{int64(b0)}, int64(1)
+				if b0 == '\\' && hasNext {
+					if m, isEsc := want[`\`+string(b1)]; isEsc {
+						wantOut, wantStep = []int64{int64(m[0])}, 2
+					}
+				}
+				same := okOut && len(out) == len(wantOut)
+				for i := range wantOut {
+					if same && out[i] != wantOut[i] {
+						same = false
+					}
+				}
+				if !same || step != wantStep {
+					okIter = false
+					whyIter = fmt.Sprintf("with the current byte %q%s the iteration emits %v and advances by %d; the reference reading emits %v and advances by %d", b0, map[bool]string{true: fmt.Sprintf(" followed by %q", b1), false: " at the end of the body"}[hasNext], out, step, wantOut, wantStep)
+				}
+			}
+		}
+	}
+	if okIter && undecided != "" {
+		c.Undecided("C11.UNESCAPE", name+": single pass", p.Pos(decoder.Pos()), "the scan loop could not be evaluated iteration-wise: "+undecided)
+		return true
+	}
+	c.Check(okIter, "C11.UNESCAPE", name+": single pass", p.Pos(decoder.Pos()), fmt.Sprintf("one left-to-right scan: each iteration emits the meaning of the grammar escape starting here and steps over both bytes, or emits the current byte and steps over one (%d cases)", rows), whyIter)
+	c.Check(okIter, "C11.TABLE", name+": escape pairs", p.Pos(decoder.Pos()), "the scan's escape table equals the grammar's ESC set", "the scan decodes an escape differently from the grammar's table: "+whyIter)
+	c.Floor("C11.UNESCAPE", 2)
+	c.Floor("C11.TABLE", 1)
+	c.Floor("C11.NOREWRITE", 1)
+	return true
 }
